@@ -303,6 +303,11 @@ def make_builtins(I):
     @reg("map")
     def _map(it, a, k):
         f = a[0]
+        if len(a) == 2 and isinstance(a[1], SV) and isinstance(a[1].ty, TOpaque):
+            h = getattr(it, "map_hook", None)
+            r = h(it, f, a[1]) if h else None
+            if r is not None:
+                return r
         items = concrete_iter(it, a[1])
         if items is not None and len(a) == 2:
             return [it.call(f, [x]) for x in items]
@@ -462,6 +467,10 @@ def length_of(it, v):
         raise Unsupported("len() of symbolic dict without ghost size")
     if isinstance(v, SymObj) and "$len" in v.fields:
         return v.fields["$len"]
+    if isinstance(v, SV) and isinstance(v.ty, TOpaque):
+        h = getattr(it, "opaque_len", {}).get(v.ty.name)
+        if h is not None:
+            return h(v)
     raise Unsupported(f"len of {type(v).__name__}")
 
 
@@ -774,6 +783,10 @@ def getslice(it, obj, lo, hi, step):
     if isinstance(obj, (list, tuple)) and step is None:
         # concrete container, symbolic bounds -> go symbolic
         obj = to_symseq(it, obj)
+    if isinstance(obj, SV) and isinstance(obj.ty, TOpaque):
+        h = getattr(it, "opaque_slice", {}).get(obj.ty.name)
+        if h is not None:
+            return h(it, obj, lo, hi, step)
     if not isinstance(obj, (SymSeq, SymList)):
         raise Unsupported("slice of " + type(obj).__name__)
     n = zlen(obj.length)
@@ -1619,7 +1632,53 @@ def comp_filter(it, e, env, kind, s):
 
 
 def comp_keyiter(it, e, env, kind, ki):
-    raise Unsupported("comprehension over a symbolic dict view (needs a summary)")
+    """{fk(s): fv(s, b) for s, b in d.items()} over a symbolic dict, when fk is the identity or
+    a registered invertible re-keying (it.invertible: z3 decl -> inverse decl, extra arguments
+    passed through).  The result dict is  has'[k'] = has[g(k')] and fk(g(k')) == k',
+    val'[k'] = fv(g(k'), val[g(k')])  (A-builtins: dict comprehension semantics)."""
+    from .interp import Env
+
+    if kind != "dict":
+        raise Unsupported("non-dict comprehension over a symbolic dict view (needs a summary)")
+    g0 = e.generators[0]
+    if g0.ifs:
+        raise Unsupported("filtered dict comprehension over a symbolic dict view")
+    s = z3.Const(it.ctx.fresh_name("rk"), ki.kty.sort())
+    env3 = Env(env)
+    if ki.mode == "items":
+        x = (it.lift(s, ki.kty), it.lift(z3.Select(ki.val, s), ki.vty))
+    elif ki.mode == "keys":
+        x = it.lift(s, ki.kty)
+    else:
+        raise Unsupported("dict comprehension over values()")
+    it.assign(g0.target, x, env3)
+    it.term_mode += 1
+    try:
+        kv = it.eval_expr(e.key, env3)
+        vv = it.eval_expr(e.value, env3)
+    finally:
+        it.term_mode -= 1
+    if not isinstance(kv, SV):
+        raise Unsupported("re-keyed dict comprehension: key is not a symbolic scalar")
+    kty2 = kv.ty
+    vty2 = it.type_of(vv)
+    vterm = it.unwrap(vv, vty2)
+    k2 = z3.Const(it.ctx.fresh_name("rk2"), kty2.sort())
+    if z3.eq(kv.t, s):
+        pre = k2
+        ok = z3.BoolVal(True)
+    else:
+        inv = None
+        if z3.is_app(kv.t) and kv.t.num_args() >= 1 and z3.eq(kv.t.arg(0), s):
+            inv = getattr(it, "invertible", {}).get(kv.t.decl().name())
+        if inv is None:
+            raise Unsupported("re-keyed dict comprehension with a key function that has no registered inverse")
+        extra = [kv.t.arg(i) for i in range(1, kv.t.num_args())]
+        pre = inv(k2, *extra)
+        ok = z3.substitute(kv.t, (s, pre)) == k2
+    has2 = z3.Lambda([k2], z3.And(z3.Select(ki.has, pre), ok))
+    val2 = z3.Lambda([k2], z3.substitute(vterm, (s, pre)))
+    return SymDict(has2, val2, kty2, vty2, "rekeyed")
 
 
 # ----------------------------------------------------------------------------
